@@ -50,6 +50,27 @@ KINDS = ["scheduled", "not_next", "ineligible", "out_of_range", "none_machine",
          "env_finished_job", "env_ineligible", "env_minus_one"]
 
 
+def fixed_cases(tier):
+    """Twelve jobs (more than ten operations ready at once): invalid requests
+    of every kind between valid dispatches."""
+    events = []
+    for k in range(16):
+        events.append(["d", (3 * k + 1) % 8, k % 2])
+        events.append(["x", k % len(KINDS), 2 * k + 1, k])
+        if k % 4 == 0:
+            events.append(["x", 1, k, 0])  # not_next
+    return [
+        {
+            "inst": gen.many_ready(12, 3),
+            "filters": None,
+            "builder": "agent_task",
+            "features": [["is_ready", None, 0], ["remaining_operations", None, 1]],
+            "events": events,
+            "prelude": False,
+        }
+    ]
+
+
 def strategy(tier):
     big = tier == "thorough"
     kw = dict(max_jobs=4, max_ops=4, max_machines=4, max_total=16 if big else 12)
